@@ -10,6 +10,22 @@ import (
 )
 
 func zzBuildParams(nb, nc int, span uint64) *types.CertificateBuildParams {
+	if bm, cm := zzverif.Param("BMASK"), zzverif.Param("CMASK"); bm != 0 || cm != 0 {
+		// concrete layout: range [1, 1+span], a bridge in block i+1 iff bit i of BMASK, a claim iff bit i of CMASK
+		p := &types.CertificateBuildParams{FromBlock: 1, ToBlock: 1 + span, CreatedAt: zzverif.U32("createdAt"),
+			CertificateType: types.CertificateType(zzverif.Int("certType", 1, 2))}
+		for i := 0; i <= int(span); i++ {
+			if bm>>i&1 == 1 {
+				k := len(p.Bridges)
+				p.Bridges = append(p.Bridges, bridgesync.Bridge{BlockNum: uint64(i + 1), BlockPos: 0, DepositCount: uint32(100 + k), Metadata: make([]byte, 1000*(k+1))})
+			}
+			if cm>>i&1 == 1 {
+				k := len(p.Claims)
+				p.Claims = append(p.Claims, bridgesync.Claim{BlockNum: uint64(i + 1), BlockPos: 1, OriginNetwork: uint32(200 + k), Metadata: make([]byte, 700*(k+1))})
+			}
+		}
+		return p
+	}
 	from := zzverif.U64("from")
 	zzverif.Assume(from >= 1 && from < 1<<40)
 	p := &types.CertificateBuildParams{FromBlock: from, ToBlock: from + span, CreatedAt: zzverif.U32("createdAt"),
